@@ -1,0 +1,30 @@
+//go:build verif
+
+package dagsync
+
+import (
+	"sync/atomic"
+
+	"github.com/libp2p/go-libp2p/core/peer"
+)
+
+// Verification harness hook (build tag verif): a callback invoked at named
+// points of the subscriber's concurrent code paths, so that a test scheduler can
+// delay or observe a goroutine there.
+
+var verifYieldFn atomic.Pointer[func(point string, p peer.ID)]
+
+// SetVerifYield installs (or, with nil, removes) the yield callback.
+func SetVerifYield(f func(point string, p peer.ID)) {
+	if f == nil {
+		verifYieldFn.Store(nil)
+		return
+	}
+	verifYieldFn.Store(&f)
+}
+
+func verifYield(point string, p peer.ID) {
+	if f := verifYieldFn.Load(); f != nil {
+		(*f)(point, p)
+	}
+}
